@@ -344,10 +344,13 @@ func init() {
 	reg("internal/bytealg.IndexString", func(in *Interp, fr *frame, a []Value, _ *ssa.CallCommon) Value {
 		s, ok1 := isConcreteStr(a[0])
 		t, ok2 := isConcreteStr(a[1])
-		if !ok1 || !ok2 {
-			panic(unsupported{"bytealg.IndexString on symbolic strings"})
+		if ok1 && ok2 {
+			return in.mkInt(int64(strings.Index(s, t)))
 		}
-		return in.mkInt(int64(strings.Index(s, t)))
+		if ok2 && len(t) == 1 {
+			return in.indexByte(in.strBytes(a[0]), in.mkByte(t[0]))
+		}
+		panic(unsupported{"strings.Index on symbolic strings (needle longer than one byte)"})
 	})
 	reg("internal/bytealg.MakeNoZero", func(in *Interp, fr *frame, a []Value, _ *ssa.CallCommon) Value {
 		n := in.argInt(a[0])
